@@ -450,6 +450,26 @@ def _run_fault(case):
             except Exception as exc:
                 outcomes["raw:" + type(exc).__name__] = outcomes.get("raw:" + type(exc).__name__, 0) + 1
                 continue  # C13's business
+            if err is None and fname == "none":
+                # the lines the loaded program itself holds (what every later error of a command reports): Command.lineno is the line of
+                # the command, argument_lines[name] the line on which that argument starts - in every layout
+                for ci2, (res2, name2, args2) in enumerate(fm):
+                    cmd2 = p.commands.get(res2)
+                    if cmd2 is None:
+                        continue
+                    first2, _ = _cmd_span(its, starts, ci2)
+                    if cmd2.lineno != first2:
+                        viols.append(V("C11:program:command-lineno-wrong", "command %s of the loaded program holds line %r, it starts on line %r (layout %d)" % (
+                            res2, cmd2.lineno, first2, layout), **tag))
+                        break
+                    for ai2, (an2, _v2) in enumerate(args2):
+                        a2, b2 = _arg_span(its, starts, ci2, ai2)
+                        got2 = cmd2.argument_lines.get(an2)
+                        # (a list argument whose value starts on a later line than its name reports the line of the list: inside the span)
+                        if got2 is None or not (a2 <= got2 <= b2):
+                            viols.append(V("C11:program:argument-line-wrong", "argument %s of %s: argument_lines says %r, it spans lines %r-%r (layout %d)" % (
+                                an2, res2, got2, a2, b2, layout), **tag))
+                            break
             if err is None:
                 outcomes["%s:no-error" % fname] = outcomes.get("%s:no-error" % fname, 0) + 1
                 if fname != "none" and level != "execute":
